@@ -5,6 +5,11 @@ V = os.path.dirname(os.path.dirname(os.path.abspath(__file__)))
 props = [json.loads(l) for l in open(os.path.join(V, "properties.jsonl"))]
 
 CLAIMS = {
+ "C14": dict(
+   text="Lean models of the script grammar (grammar.pest read as a character-level PEG with pest's implicit whitespace, producing pest's pair tree) and of the interpreter (run_exp, run_exp_if, run_exp_test_br, run_exp_for, run_exp_while over that tree), plus a textbook structured semantics semBlock over ASTs. Theorems: a stray block terminator makes the whole script a syntax error whatever follows (C14_stray_fi/done/else; the snapshot's silent skip is refuted and was repaired by a fix: commit adding EOI), exactly the first true arm of an if runs and later conditions are not evaluated, a failing arm is skipped, break ends the innermost loop only. The interpreter refinement run_lines(render b) = semBlock b is evaluated by the compiled Lean definitions on every generated AST and compared with the implementation, but is not yet a theorem. Tied to /repo by: pest parse trees of 12 000 generated/mutated/keyword-soup scripts vs the PEG model (identical on all), 3 000 random ASTs executed in-process under a scripted run_proc with programmed status sequences and watched loop variables, and 150 through the real binary with marker-writing helpers.",
+   note="Trusted: Lean kernel; hand-written PEG and interpreter models (validated by correspondence on generated scripts only); the refinement between interpreter model and structured semantics and the PEG round trip are runtime-checked instances, not theorems; run_command_line on each line is a parameter (C03).",
+   technique="Lean 4 proof (PEG evaluation lemmas, semantics lemmas) + model/implementation correspondence on parse trees and executed traces",
+   design="DESIGN.md §6 C14"),
  "C11": dict(
    text="Lean 4 theorems over the model of do_command_substitution: C11_find (in pre$(cmd)post the greedy search finds exactly cmd), C11_splice_literal (for EVERY output text - $1, ${x}, $name, $$, backslashes, braces, regex specials - the word becomes pre ++ output ++ post; nothing in the output is interpreted by the splice), C11_backquote_match, C11_rejected_is_empty (an inner command that cannot be planned is replaced by nothing and the loop goes on - no hang). Five open finding classes are kept visible (both-side trim, output rescanned, inner text pre-expanded, text after a word-initial backquote substitution, unquoted output re-read). Tied to /repo by in-process plan streams with scripted outputs (39 outputs x 2 spellings x 4 positions x 2 quotings), the substitution pass on random token lists incl. rejected inner commands, and the real binary (printf outputs; a counting helper for run-exactly-once).",
    note="Trusted: Lean kernel; hand-written model; running the inner command is an oracle keyed by the planned argv (scripted in-process, real processes in the binary stream); exactly-once is checked at process level only; stderr/state isolation of the inner command is not modelled.",
